@@ -756,6 +756,8 @@ def sweep(kinds=None, cls=None, fixtures_only=False):
         for label, units in rtf_cases():
             for ctx, data in rtf_documents(units):
                 docs.append((f"crafted:{label} ({ctx}).rtf", data))
+        for f_, label, data_ in spine_variants():
+            docs.append((f_, data_))
         for rel, pred, _key in DAMAGED:
             f = os.path.join(RES, rel)
             if os.path.exists(f):
@@ -777,6 +779,59 @@ def sweep(kinds=None, cls=None, fixtures_only=False):
                     continue
                 out.append(dict(x, file=name.replace(REPO + "/", ""), path_given=path is not None))
     return out
+
+
+# ------------------------------------------------------------ unit numbers --
+def spine_variants():
+    """EPUB fixtures with the flow attributes of the spine changed: first itemref linear="no" (the usual cover page), every
+    itemref linear="no", first itemref repeated -- documents that reach the branches where chapters are numbered differently."""
+    import re
+    for f in fixture_files():
+        if not f.lower().endswith(".epub"):
+            continue
+        try:
+            src = zipfile.ZipFile(f)
+            opf = [n for n in src.namelist() if n.endswith(".opf")][0]
+            text = src.read(opf).decode("utf-8")
+        except Exception:  # noqa
+            continue
+        refs = re.findall(r"<(?:opf:)?itemref\b[^>]*>", text)
+        if not refs:
+            continue
+
+        def mark(tag):
+            t = re.sub(r'\slinear="[^"]*"', "", tag)
+            return t[:-2] + ' linear="no"/>' if t.endswith("/>") else t[:-1] + ' linear="no">'
+        variants = {"first itemref linear=no": text.replace(refs[0], mark(refs[0]), 1),
+                    "every itemref linear=no": re.sub(r"<(?:opf:)?itemref\b[^>]*>", lambda m: mark(m.group(0)), text),
+                    "first itemref repeated": text.replace(refs[0], refs[0] + refs[0], 1)}
+        for label, new in variants.items():
+            buf = io.BytesIO()
+            with zipfile.ZipFile(buf, "w", zipfile.ZIP_DEFLATED) as z:
+                for zi in src.infolist():
+                    z.writestr(zi, new.encode("utf-8") if zi.filename == opf else src.read(zi.filename))
+            yield f, label, buf.getvalue()
+
+
+def find_unit_numbers(ob):
+    for f, label, data in spine_variants():
+        if "epub" not in ob and "data_types" not in ob:
+            break
+        try:
+            F = failures_of(data, f)
+        except Exception:  # noqa
+            continue
+        bad = [x for x in F if x["kind"] == "unit-number"]
+        if bad:
+            return {"reproduced": True, "target": "sharepoint2text read_epub", "inputs": {"fixture": f.replace(REPO + "/", ""), "variant": label},
+                    "expected": "unit numbers are positive integers", "observed": f"{bad[0]['where']}: {bad[0]['detail']}"}
+    s = sweep(kinds=("unit-number",))
+    if s:
+        return {"reproduced": True, "target": ob, "inputs": {"file": s[0]["file"]}, "expected": "unit numbers are positive integers", "observed": f"{s[0]['where']}: {s[0]['detail']}"}
+    r = find_content_scope()
+    if r["reproduced"] and "unit_number" in str(r.get("observed")):
+        return r
+    return {"reproduced": False, "note": "spine variants, fixtures and hand-built content objects: every unit number is >= 1"}
 
 
 # ------------------------------------------------------ content small scope --
@@ -958,6 +1013,8 @@ def find(req):
         if "mbox_email_extractor" in ob:
             return find_mbox(fn, k)
         return {"reproduced": False, "note": "no crafted input for this decode site"}
+    if "/call-pre#" in ob and "-positive@" in ob and (hint or {}).get("kind") == "unit-number":
+        return find_unit_numbers(ob)
     if "/call-pre#" in ob and any(t in ob for t in ("-positive@", "size_bytes-is-len-of-payload", "-invariants@", "#store-", "class-used-as-a-value",
                                                       "not-from-a-None-source")):
         # image objects built at (or rewritten after) a constructor site: documents that reach the error branches (pictures that
